@@ -153,6 +153,7 @@ type Frame struct {
 	dead        bool // current path ended (panic / no-return)
 	counters    map[string]int
 	curInstrPos token.Pos
+	callStamp int // index of the newest symbol that existed before the current contract call
 	resNames map[string]bool
 	freshNames map[string]*Value
 }
@@ -359,6 +360,20 @@ func (fr *Frame) merge(edges []Edge, b *ssa.BasicBlock) (Term, *State) {
 				out.content = map[string]*contentRec{}
 			}
 			out.content[k] = rec
+		}
+	}
+	for k, rec := range edges[0].st.gcontent {
+		same := true
+		for _, e := range edges[1:] {
+			if e.st.gcontent[k] != rec {
+				same = false
+			}
+		}
+		if same {
+			if out.gcontent == nil {
+				out.gcontent = map[string]*ghostRec{}
+			}
+			out.gcontent[k] = rec
 		}
 	}
 	mergeTerms := func(ts []Term, hint string) Term {
